@@ -50,8 +50,21 @@ func (s *Sim) checkPerio(ctx *StepCtx) {
 	if len(reqs) == 0 {
 		return
 	}
-	if m.perioTaint || s.stepFaulted(ctx) || s.firedM["dp.reject"]+s.firedM["dp.latefail"]+s.firedM["dp.empty"] > 0 {
+	// injected faults: the oracle judges around the two narrow kinds it understands (a
+	// multi-URR query refused: that tick is abandoned; the removal of a URR refused: that
+	// URR's registration is go-upf's business from then on) and is off for all others
+	if m.perioTaint || s.firedM["dp.untagged"] > 0 {
 		return
+	}
+	for _, r := range ctx.Reqs {
+		if r.Fault && r.FaultTag != "tickq" && r.FaultTag != "delurr" {
+			return
+		}
+	}
+	for _, o := range ctx.N4 {
+		if o.Err {
+			return
+		}
 	}
 	if ctx.Kind == "deliver" {
 		return // registrations change inside the step: judged at the next idle stretch
@@ -81,6 +94,12 @@ func (s *Sim) checkPerio(ctx *StepCtx) {
 	i := 0
 	for i < len(reqs) {
 		first := reqs[i]
+		if first.Fault {
+			// refused: go-upf gives this tick up (whatever it had queried of it already)
+			perPeriod[periodOf[first.Multi[0]]]++
+			i++
+			continue
+		}
 		if len(first.Multi) == 0 {
 			s.violate("C15", "tick.nonempty", "tick:empty-query", "the periodic client sent a multi-report query naming no URR")
 			i++
@@ -95,9 +114,22 @@ func (s *Sim) checkPerio(ctx *StepCtx) {
 			continue
 		}
 		set := reg[p]
+		need := 0 // URRs go-upf is sure to query: not those whose earlier removal was refused
+		for k := range set {
+			if !m.delFaulted[k] {
+				need++
+			}
+		}
 		seen := map[RuleKey]bool{}
+		sure := 0
 		n := 0
-		for i < len(reqs) && len(seen) < len(set) {
+		abandoned := false
+		for i < len(reqs) && (sure < need || n == 0) { // n == 0: always consume the request that opened the tick
+			if reqs[i].Fault {
+				abandoned = true // a later batch of this tick was refused
+				i++
+				break
+			}
 			for _, k := range reqs[i].Multi {
 				if seen[k] {
 					s.violate("C15", "tick.no-duplicate", "tick:duplicate", "a tick of period %v queried URR %#x:%d twice", p, k.SEID, k.ID)
@@ -106,17 +138,24 @@ func (s *Sim) checkPerio(ctx *StepCtx) {
 					s.violate("C15", "tick.exact-set", "tick:wrong-set",
 						"a tick of period %v at %v queried %#x:%d which is not registered with that period; registered: %v", p, reqs[i].At, k.SEID, k.ID, describe())
 				}
+				if !seen[k] && !m.delFaulted[k] {
+					sure++
+				}
 				seen[k] = true
 			}
 			i++
 			n++
 		}
-		if len(seen) != len(set) {
+		if sure != need && !abandoned {
 			var missing []RuleKey
 			for k := range set {
-				if !seen[k] {
+				if !seen[k] && !m.delFaulted[k] {
 					missing = append(missing, k)
 				}
+			}
+			if len(missing) == 0 {
+				perPeriod[p]++
+				continue
 			}
 			s.violate("C15", "tick.exact-set", "tick:missing",
 				"a tick of period %v queried %d of its %d registered URRs, missing %s", p, len(seen), len(set), keySetString(missing))
